@@ -35,7 +35,16 @@ PROP = {
              "background goroutines at the beginning of the run, collected at the end, retried when the machine is too slow to be "
              "conclusive, 90 s watchdog): a payload of the real GeneratePayload with lifetime 1/2/3 s presented 0.3/1.0 s later "
              "(must be accepted by CheckPayload and inside a fresh honest proof by CheckProof) and lifetime + 0.3 s / 3.7 s later "
-             "(must be rejected by both). c19.payload / c19.check also present payloads made under sibling, "
+             "(must be rejected by both). Derived malformed texts: from a GENUINE honest proof every text field the server parses — "
+             "payload, address (hex part and workchain part), signature (base64), state-init (base64 BOC), domain (proof side and "
+             "server side) — is replaced by the genuine text with every kind of tail and head (one/two/three alphabet characters, "
+             "characters outside the alphabet, mixed pairs, \\n, \\r\\n, space, tab, NUL, =, ==, 0xff, U+00A0, the text itself), 1..4 "
+             "characters cut at either end (odd lengths), upper/lower/mixed case, and white space / NUL / an alien character inserted "
+             "or substituted at the ends, the middle and random positions; payload, address and domain variants are re-signed by the "
+             "wallet key over the presented fields so that only the parsing of that field can reject them; through c19.check, and "
+             "alone through c19.payload and c19.conv. Oracle computed independently (encoding/hex, encoding/base64, an own address "
+             "reader): accepted exactly when the text decodes to the same bytes (e.g. hex case, base64 newlines), never a panic, "
+             "never another key. c19.payload / c19.check also present payloads made under sibling, "
              "truncated and zero-padded secrets; c19.check with checkDomain policies allow/deny/error/suffix and both lifetimes set. c19.msg (createMessage bytes), c19.conv "
              "(convertTonProofMessage + ParseAccountID), c19.payload, c19.pubkey (getWalletPubKey), c19.stateinit "
              "(compareStateInitWithAddress + ParseStateInit) exercise the parts alone. Oracles on the implementation: honest => accepted "
@@ -55,7 +64,10 @@ PROP = {
                     "for secrets of any length), and keying the MAC with the secret cut/padded to the 64-byte block is refuted "
                     "(C19_block_key_design_refuted); C19_generated_payload_rejected_after_lifetime: more than lifetime s (+ lifetime ns) "
                     "after GeneratePayload the payload is rejected, i.e. the lifetime is counted once; a GeneratePayload that stores "
-                    "now + lifetime seconds is refuted (C19_lifetime_counted_twice_refuted). coq/Properties/C19_gen.v "
+                    "now + lifetime seconds is refuted (C19_lifetime_counted_twice_refuted); C19_accepted_payload_text_exact: an accepted "
+                    "payload text is exactly 64 hexadecimal digits, so a genuine payload with any tail or head is rejected "
+                    "(C19_payload_with_tail_rejected), and a CheckPayload that ignores the hex error once 32 bytes were decoded is refuted "
+                    "(C19_lenient_hex_refuted). coq/Properties/C19_gen.v "
                     "re-checks on the constants translated from today's source: prefixes, default lifetimes, get_public_key method id "
                     "(= crc16 of the name | 0x10000), knownHashes range, the switch of ParseStateInit (key offsets 32/64/113/65 derived "
                     "from the wallet data structs, default clause is an error), and recomputes all 12 code hashes from the code BOCs "
@@ -69,6 +81,9 @@ PROP = {
                     "lifetimes above 9223372036 s overflow time.Duration (model and code agree; configuration misuse)",
                     "c19.expire depends on the wall clock: acceptance cases are retried (at most 4 times) when generation-to-check took "
                     "longer than lifetime - 1 s; rejection cases cannot be perturbed by delays",
+                    "the timestamp is an int64 of the Proof struct, not a text the server parses (its JSON decoding is outside the model); an "
+                    "address written with another workchain or zero-stripped hex denotes an account for which the same state-init / the "
+                    "scripted get-method vouch, so such re-signed proofs are accepted by code and model alike",
                     "JSON decoding of Proof, context cancellation and the real executor are not modelled; the clock is a parameter",
                     "ParseAccountID's base64 fallback is modelled as an error: convertTonProofMessage has already required a ':' "
                     "which base64url never accepts"],
